@@ -5,6 +5,7 @@ import (
 	"fmt"
 	"os"
 	"sort"
+	_ "time/tzdata" // the genesis probe re-runs this binary under other time zones
 
 	"verifharness/core"
 	_ "verifharness/suites"
